@@ -27,6 +27,7 @@ import Mathlib.Tactic.LinearCombination
 import Mathlib.Tactic.SplitIfs
 import Mathlib.Tactic.NormNum
 import Mathlib.Algebra.Order.Field.Rat
+import Mathlib.Data.Rat.Floor
 
 set_option linter.unusedSectionVars false
 set_option linter.unusedVariables false
@@ -2252,22 +2253,16 @@ theorem plane_scale_inverse (M : MathOps α) (h1 : M.sqrt 1 = 1) (pl : PlaneS α
 
 /-! ## E. Arcs
 
-`Arc2D` stores centre `c`, radius `r`, start / end angles `a1`, `a2` (meant to lie in `[0, 2π]`)
-and cached `cos` / `sin` of both angles.  Its points are `c + r·(cos φ, sin φ)`; `arc2_point_at`
-evaluates the point at parameter `t`.
+`Arc2D` stores centre `c`, radius `r`, start / end angles `a1`, `a2` (in `[0, 2π]`; the pair
+`(0, 2π)` denotes a full circle) and cached `cos` / `sin` of both angles.  Its points are
+`c + r·(cos φ, sin φ)`; `arc2_point_at` evaluates the point at parameter `t`.
 
-`move` and `scale` are fully correct.  `rotate` maps centre, radius and the two end POINTS
-correctly (given the angle-addition law for `M.cos`, `M.sin`), but its ANGLE bookkeeping is only
-right when no wrap-around or a single positive wrap-around is needed:
-
-* KNOWN DEFECT 1 (proved below, `arc2_rotate_full_circle_defect`): a full circle
-  (`a1 = 0`, `a2 = 2π`) rotated by `0 < θ ≤ 2π` gets `a1 = a2 = θ`, i.e. collapses to an arc of
-  length 0.
-* KNOWN DEFECT 2 (`arc2_rotate_negative_defect`): for `a1 + θ < 0` (negative rotation angles) the
-  stored start angle is negative, outside `[0, 2π]`; likewise for `a + θ > 4π` it stays above
-  `2π` (only one period is subtracted).
-
-So nothing stronger than the statements below is claimed for `arc2_rotate`. -/
+`rotate` (after the library fix): a full circle stays a full circle about the rotated centre; for
+any other arc both angles become `(a + θ) % 2π`, which the translator renders as
+`x - M.floor (x / (2π)) * (2π)`.  The facts about `M.floor` that are needed are explicit hypotheses:
+the floor law `hfl : ∀ x, M.floor x ≤ x ∧ x < M.floor x + 1` (range of the new angles) and, for the
+preservation of the swept angle / the inverse, integrality `hint : ∀ x, ∃ n : ℤ, M.floor x = n`
+(without it "`floor x := x - 1/2`" satisfies `hfl` and sends every angle to `π`). -/
 
 /-- The cached trigonometric values of an `Arc2D` agree with its angles. -/
 def Arc2Coherent (M : MathOps α) (a : Arc2S α) : Prop :=
@@ -2331,120 +2326,130 @@ theorem arc2_scale_endpoints (M : MathOps α) (a : Arc2S α) (k : α) (o : V2 α
   constructor <;> simp only [arc2_p1, arc2_p2, arc2_scale, p2_scale, h1, h2, h3, h4] <;>
     ext <;> simp only [] <;> ring
 
-/-- `Arc2D.rotate`: the centre is the rotated centre, the radius is kept, the cache is coherent,
-and each new angle is the old angle plus `θ`, reduced by `2π` exactly when the sum exceeds `2π`
-(ONE period at most, never increased — see the defects documented above). -/
+/-- The arc is a full circle (`Arc2D.is_circle`): `a1 = 0` and `a2 = 2π`. -/
+def Arc2IsCircle (M : MathOps α) (a : Arc2S α) : Prop := a.a1 = 0 ∧ a.a2 = 2 * M.pi
+
+/-- Python's float remainder `x % y` as rendered by the translator. -/
+def fmod (M : MathOps α) (x y : α) : α := x - M.floor (x / y) * y
+
+/-- `Arc2IsCircle` is exactly what the kernel `arc2_is_circle` tests. -/
+theorem arc2_is_circle_iff (M : MathOps α) (a : Arc2S α) :
+    arc2_is_circle M a = true ↔ Arc2IsCircle M a := by
+  simp only [arc2_is_circle, Arc2IsCircle, decide_eq_true_eq]
+
+/-- `Arc2D.rotate` (every input, every `θ`): the centre is the centre rotated about the origin, the
+radius is kept, and the cached `cos` / `sin` values agree with the stored new angles. -/
 theorem arc2_rotate_maps (M : MathOps α) (a : Arc2S α) (θ : α) (o : V2 α) :
     (arc2_rotate M a θ o).c = p2_rotate M a.c θ o ∧ (arc2_rotate M a θ o).r = a.r ∧
-    (arc2_rotate M a θ o).a1
-      = (if 2 * M.pi < a.a1 + θ then a.a1 + θ - 2 * M.pi else a.a1 + θ) ∧
-    (arc2_rotate M a θ o).a2
-      = (if 2 * M.pi < a.a2 + θ then a.a2 + θ - 2 * M.pi else a.a2 + θ) ∧
-    Arc2Coherent M (arc2_rotate M a θ o) :=
-  ⟨rfl, rfl, rfl, rfl, ⟨rfl, rfl, rfl, rfl⟩⟩
+    Arc2Coherent M (arc2_rotate M a θ o) := by
+  refine ⟨?_, rfl, ?_, ?_, ?_, ?_⟩
+  · simp only [arc2_rotate, p2_rotate]
+    ext <;> simp only [] <;> split_ifs <;> rfl
+  all_goals (simp only [arc2_rotate]; split_ifs <;> rfl)
 
-/-- PARTIAL (what is true of the angle bookkeeping of `Arc2D.rotate`): if no wrap-around is needed,
-i.e. `a1 + θ ≤ 2π` and `a2 + θ ≤ 2π`, the new angles are `a1 + θ`, `a2 + θ`, the arc length is
-unchanged, and if moreover `0 ≤ a1 + θ`, `0 ≤ a2 + θ` they lie in `[0, 2π]` again.
-Full statement that does NOT hold: "for every θ the new angles are `a + θ` reduced into `[0, 2π]`
-and the length is unchanged" — see `arc2_rotate_full_circle_defect`,
-`arc2_rotate_negative_defect`. -/
-theorem arc2_rotate_angles_partial (M : MathOps α) (a : Arc2S α) (θ : α) (o : V2 α)
-    (h1 : a.a1 + θ ≤ 2 * M.pi) (h2 : a.a2 + θ ≤ 2 * M.pi) :
-    (arc2_rotate M a θ o).a1 = a.a1 + θ ∧ (arc2_rotate M a θ o).a2 = a.a2 + θ ∧
+/-- `Arc2D.rotate` of a NON-circle, any `θ` (negative, `> 2π`, …): each new angle is
+`(a + θ) % 2π = a + θ - floor((a + θ)/(2π))·2π`; under the floor law and `0 < π` it lies in
+`[0, 2π)`, it is `a + θ` minus an explicit multiple `m·2π`, and the result is again not a full
+circle. -/
+theorem arc2_rotate_angles (M : MathOps α) (a : Arc2S α) (θ : α) (o : V2 α)
+    (hfl : ∀ x, M.floor x ≤ x ∧ x < M.floor x + 1) (hpi : 0 < M.pi)
+    (hnc : ¬ Arc2IsCircle M a) :
+    (arc2_rotate M a θ o).a1 = fmod M (a.a1 + θ) (2 * M.pi) ∧
+    (arc2_rotate M a θ o).a2 = fmod M (a.a2 + θ) (2 * M.pi) ∧
+    (0 ≤ (arc2_rotate M a θ o).a1 ∧ (arc2_rotate M a θ o).a1 < 2 * M.pi) ∧
+    (0 ≤ (arc2_rotate M a θ o).a2 ∧ (arc2_rotate M a θ o).a2 < 2 * M.pi) ∧
+    (∃ m, (arc2_rotate M a θ o).a1 = a.a1 + θ - m * (2 * M.pi)) ∧
+    (∃ m, (arc2_rotate M a θ o).a2 = a.a2 + θ - m * (2 * M.pi)) ∧
+    ¬ Arc2IsCircle M (arc2_rotate M a θ o) := by
+  have hP : 0 < 2 * M.pi := by linarith
+  unfold Arc2IsCircle at hnc
+  have e1 : (arc2_rotate M a θ o).a1 = fmod M (a.a1 + θ) (2 * M.pi) := by
+    simp only [arc2_rotate, fmod, if_neg hnc]
+  have e2 : (arc2_rotate M a θ o).a2 = fmod M (a.a2 + θ) (2 * M.pi) := by
+    simp only [arc2_rotate, fmod, if_neg hnc]
+  have r1 := fmod_range M hfl hP (a.a1 + θ)
+  have r2 := fmod_range M hfl hP (a.a2 + θ)
+  refine ⟨e1, e2, by rw [e1]; exact r1, by rw [e2]; exact r2, ⟨_, e1⟩, ⟨_, e2⟩, ?_⟩
+  rintro ⟨_, h⟩
+  rw [e2] at h
+  exact absurd h (ne_of_lt r2.2)
+
+/-- `Arc2D.rotate` of a FULL CIRCLE, any `θ`: the result is again a full circle (`a1 = 0`,
+`a2 = 2π`, `is_circle` holds) about the rotated centre with the same radius; length and area are
+unchanged. -/
+theorem arc2_rotate_circle (M : MathOps α) (a : Arc2S α) (θ : α) (o : V2 α)
+    (hc : Arc2IsCircle M a) :
+    (arc2_rotate M a θ o).a1 = 0 ∧ (arc2_rotate M a θ o).a2 = 2 * M.pi ∧
+    Arc2IsCircle M (arc2_rotate M a θ o) ∧
+    (arc2_rotate M a θ o).c = p2_rotate M a.c θ o ∧ (arc2_rotate M a θ o).r = a.r ∧
     arc2_length M (arc2_rotate M a θ o) = arc2_length M a ∧
-    (0 ≤ a.a1 + θ → 0 ≤ a.a2 + θ →
-      (0 ≤ (arc2_rotate M a θ o).a1 ∧ (arc2_rotate M a θ o).a1 ≤ 2 * M.pi) ∧
-      (0 ≤ (arc2_rotate M a θ o).a2 ∧ (arc2_rotate M a θ o).a2 ≤ 2 * M.pi)) := by
-  obtain ⟨_, _, e1, e2, _⟩ := arc2_rotate_maps M a θ o
-  rw [if_neg (not_lt.mpr h1)] at e1
-  rw [if_neg (not_lt.mpr h2)] at e2
-  refine ⟨e1, e2, ?_, fun p1 p2 => by rw [e1, e2]; exact ⟨⟨p1, h1⟩, ⟨p2, h2⟩⟩⟩
-  have hr : (arc2_rotate M a θ o).r = a.r := rfl
-  simp only [arc2_length, e1, e2, hr]
-  have hiff : (a.a2 + θ < a.a1 + θ) ↔ (a.a2 < a.a1) := by
-    constructor <;> intro h <;> linarith
-  simp only [hiff]
-  split_ifs <;> ring
+    arc2_area M (arc2_rotate M a θ o) = arc2_area M a := by
+  have hc' := hc
+  unfold Arc2IsCircle at hc'
+  have e1 : (arc2_rotate M a θ o).a1 = 0 := by
+    simp only [arc2_rotate, if_pos hc']
+  have e2 : (arc2_rotate M a θ o).a2 = 2 * M.pi := by
+    simp only [arc2_rotate, if_pos hc']
+  have er : (arc2_rotate M a θ o).r = a.r := rfl
+  refine ⟨e1, e2, ⟨e1, e2⟩, (arc2_rotate_maps M a θ o).1, er, ?_, ?_⟩
+  · simp only [arc2_length, e1, e2, er, hc.1, hc.2]
+  · simp only [arc2_area, e1, e2, er, hc.1, hc.2]
 
-/-- PARTIAL: a single wrap-around of both angles (`2π < a + θ ≤ 4π`) is handled: the new angles
-are `a + θ - 2π ∈ (0, 2π]`, and the arc length is unchanged. -/
-theorem arc2_rotate_angles_wrap_partial (M : MathOps α) (a : Arc2S α) (θ : α) (o : V2 α)
-    (h1 : 2 * M.pi < a.a1 + θ) (h2 : 2 * M.pi < a.a2 + θ)
-    (h1' : a.a1 + θ ≤ 4 * M.pi) (h2' : a.a2 + θ ≤ 4 * M.pi) :
-    (arc2_rotate M a θ o).a1 = a.a1 + θ - 2 * M.pi ∧
-    (arc2_rotate M a θ o).a2 = a.a2 + θ - 2 * M.pi ∧
-    arc2_length M (arc2_rotate M a θ o) = arc2_length M a ∧
-    (0 < (arc2_rotate M a θ o).a1 ∧ (arc2_rotate M a θ o).a1 ≤ 2 * M.pi) ∧
-    (0 < (arc2_rotate M a θ o).a2 ∧ (arc2_rotate M a θ o).a2 ≤ 2 * M.pi) := by
-  obtain ⟨_, _, e1, e2, _⟩ := arc2_rotate_maps M a θ o
-  rw [if_pos h1] at e1
-  rw [if_pos h2] at e2
-  refine ⟨e1, e2, ?_, ?_, ?_⟩
-  · have hr : (arc2_rotate M a θ o).r = a.r := rfl
-    simp only [arc2_length, e1, e2, hr]
-    have hiff : (a.a2 + θ - 2 * M.pi < a.a1 + θ - 2 * M.pi) ↔ (a.a2 < a.a1) := by
-      constructor <;> intro h <;> linarith
-    simp only [hiff]
-    split_ifs <;> ring
-  · rw [e1]; constructor <;> linarith
-  · rw [e2]; constructor <;> linarith
+/-- `Arc2D.rotate` preserves the swept angle (`Arc2D.angle`) and hence the length of every valid
+non-circle arc (`a1, a2 ∈ [0, 2π]`), for ANY `θ`, under the floor law plus integrality of
+`M.floor`.  No boundary case is excluded: an end angle equal to `2π` is renormalised to `0`
+(possibly flipping `is_inverted`), and the swept angle is still the same. -/
+theorem arc2_rotate_angle (M : MathOps α) (a : Arc2S α) (θ : α) (o : V2 α)
+    (hfl : ∀ x, M.floor x ≤ x ∧ x < M.floor x + 1) (hint : ∀ x, ∃ n : ℤ, M.floor x = n)
+    (hpi : 0 < M.pi) (hnc : ¬ Arc2IsCircle M a)
+    (h1 : 0 ≤ a.a1 ∧ a.a1 ≤ 2 * M.pi) (h2 : 0 ≤ a.a2 ∧ a.a2 ≤ 2 * M.pi) :
+    arc2_angle M (arc2_rotate M a θ o) = arc2_angle M a ∧
+    arc2_length M (arc2_rotate M a θ o) = arc2_length M a := by
+  have hP : 0 < 2 * M.pi := by linarith
+  obtain ⟨e1, e2, r1, r2, _, _, _⟩ := arc2_rotate_angles M a θ o hfl hpi hnc
+  obtain ⟨n1, hn1⟩ := hint ((a.a1 + θ) / (2 * M.pi))
+  obtain ⟨n2, hn2⟩ := hint ((a.a2 + θ) / (2 * M.pi))
+  unfold fmod at e1 e2
+  rw [hn1] at e1
+  rw [hn2] at e2
+  have key := swept_shift hP h1 h2 hnc r1 r2 e1 e2
+  have ha : ∀ b : Arc2S α, arc2_angle M b = swept (2 * M.pi) b.a1 b.a2 := fun b => by
+    simp only [arc2_angle, swept]
+  have hl : ∀ b : Arc2S α, arc2_length M b = swept (2 * M.pi) b.a1 b.a2 * b.r := fun b => by
+    simp only [arc2_length, swept]
+  have er : (arc2_rotate M a θ o).r = a.r := rfl
+  exact ⟨by rw [ha, ha, key], by rw [hl, hl, key, er]⟩
 
-/-- `Arc2D.rotate` maps the START point correctly whenever `M.cos`, `M.sin` at the stored new angle
-satisfy the angle-addition formulas (true for the real functions in both branches, since they
-are `2π`-periodic): `p1 (rotate a) = rotate (p1 a)`. -/
+/-- `Arc2D.rotate` maps the START point: `p1 (rotate a) = rotate (p1 a)`, for a cache-coherent arc,
+given that `M.cos`, `M.sin` take the same values at the stored (reduced) angle as at `a1 + θ`
+(`2π`-periodicity) and satisfy the angle-addition law at `a1 + θ`.  (For a full circle the stored
+start angle stays `0`, so the periodicity hypothesis only holds when `cos θ = 1`: the start point
+of a full circle is not tracked, its point set is — see `arc2_rotate_circle`.) -/
 theorem arc2_rotate_p1 (M : MathOps α) (a : Arc2S α) (θ : α) (o : V2 α) (hc : Arc2Coherent M a)
-    (hcos : M.cos (arc2_rotate M a θ o).a1 = M.cos a.a1 * M.cos θ - M.sin a.a1 * M.sin θ)
-    (hsin : M.sin (arc2_rotate M a θ o).a1 = M.sin a.a1 * M.cos θ + M.cos a.a1 * M.sin θ) :
+    (hpc : M.cos (arc2_rotate M a θ o).a1 = M.cos (a.a1 + θ))
+    (hps : M.sin (arc2_rotate M a θ o).a1 = M.sin (a.a1 + θ))
+    (hcos : M.cos (a.a1 + θ) = M.cos a.a1 * M.cos θ - M.sin a.a1 * M.sin θ)
+    (hsin : M.sin (a.a1 + θ) = M.sin a.a1 * M.cos θ + M.cos a.a1 * M.sin θ) :
     arc2_p1 (arc2_rotate M a θ o) = p2_rotate M (arc2_p1 a) θ o := by
   obtain ⟨h1, h2, _, _⟩ := hc
-  have e1 : (arc2_rotate M a θ o).cos_a1 = M.cos (arc2_rotate M a θ o).a1 := rfl
-  have e2 : (arc2_rotate M a θ o).sin_a1 = M.sin (arc2_rotate M a θ o).a1 := rfl
-  have e3 : (arc2_rotate M a θ o).c = p2_rotate M a.c θ o := rfl
-  have e4 : (arc2_rotate M a θ o).r = a.r := rfl
-  simp only [arc2_p1, e1, e2, e3, e4, hcos, hsin, h1, h2]
+  obtain ⟨e3, e4, e1, e2, _, _⟩ := arc2_rotate_maps M a θ o
+  simp only [arc2_p1, e1, e2, e3, e4, hpc, hps, hcos, hsin, h1, h2]
   simp only [p2_rotate]
   ext <;> simp only [] <;> ring
 
-/-- `Arc2D.rotate` maps the END point correctly under the same angle-addition hypotheses at the
-stored new end angle: `p2 (rotate a) = rotate (p2 a)`. -/
+/-- `Arc2D.rotate` maps the END point: `p2 (rotate a) = rotate (p2 a)`, under the same
+periodicity / angle-addition hypotheses at the end angle. -/
 theorem arc2_rotate_p2 (M : MathOps α) (a : Arc2S α) (θ : α) (o : V2 α) (hc : Arc2Coherent M a)
-    (hcos : M.cos (arc2_rotate M a θ o).a2 = M.cos a.a2 * M.cos θ - M.sin a.a2 * M.sin θ)
-    (hsin : M.sin (arc2_rotate M a θ o).a2 = M.sin a.a2 * M.cos θ + M.cos a.a2 * M.sin θ) :
+    (hpc : M.cos (arc2_rotate M a θ o).a2 = M.cos (a.a2 + θ))
+    (hps : M.sin (arc2_rotate M a θ o).a2 = M.sin (a.a2 + θ))
+    (hcos : M.cos (a.a2 + θ) = M.cos a.a2 * M.cos θ - M.sin a.a2 * M.sin θ)
+    (hsin : M.sin (a.a2 + θ) = M.sin a.a2 * M.cos θ + M.cos a.a2 * M.sin θ) :
     arc2_p2 (arc2_rotate M a θ o) = p2_rotate M (arc2_p2 a) θ o := by
   obtain ⟨_, _, h3, h4⟩ := hc
-  have e1 : (arc2_rotate M a θ o).cos_a2 = M.cos (arc2_rotate M a θ o).a2 := rfl
-  have e2 : (arc2_rotate M a θ o).sin_a2 = M.sin (arc2_rotate M a θ o).a2 := rfl
-  have e3 : (arc2_rotate M a θ o).c = p2_rotate M a.c θ o := rfl
-  have e4 : (arc2_rotate M a θ o).r = a.r := rfl
-  simp only [arc2_p2, e1, e2, e3, e4, hcos, hsin, h3, h4]
+  obtain ⟨e3, e4, _, _, e1, e2⟩ := arc2_rotate_maps M a θ o
+  simp only [arc2_p2, e1, e2, e3, e4, hpc, hps, hcos, hsin, h3, h4]
   simp only [p2_rotate]
   ext <;> simp only [] <;> ring
-
-/-- KNOWN DEFECT 1, machine-checked: rotating a full circle (`a1 = 0`, `a2 = 2π`) by any
-`0 < θ ≤ 2π` yields `a1 = a2 = θ`: the circle collapses to an arc of length 0 (the original has
-length `2π·r`). -/
-theorem arc2_rotate_full_circle_defect (M : MathOps α) (a : Arc2S α) (θ : α) (o : V2 α)
-    (h1 : a.a1 = 0) (h2 : a.a2 = 2 * M.pi) (hθ : 0 < θ) (hθ' : θ ≤ 2 * M.pi) :
-    (arc2_rotate M a θ o).a1 = θ ∧ (arc2_rotate M a θ o).a2 = θ ∧
-    arc2_length M (arc2_rotate M a θ o) = 0 ∧ arc2_length M a = 2 * M.pi * a.r := by
-  obtain ⟨_, _, e1, e2, _⟩ := arc2_rotate_maps M a θ o
-  rw [h1, zero_add, if_neg (not_lt.mpr hθ')] at e1
-  rw [h2, if_pos (by linarith)] at e2
-  have e2' : (arc2_rotate M a θ o).a2 = θ := by rw [e2]; ring
-  have hpi : 0 ≤ 2 * M.pi := le_trans hθ.le hθ'
-  refine ⟨e1, e2', ?_, ?_⟩
-  · simp only [arc2_length, e1, e2', lt_irrefl, not_false_eq_true, if_true, sub_self, zero_mul]
-  · simp only [arc2_length, h1, h2, not_lt.mpr hpi, not_false_eq_true, if_true, sub_zero]
-
-/-- KNOWN DEFECT 2, machine-checked: if `a1 + θ < 0` (e.g. a negative rotation angle) the stored
-start angle is `a1 + θ < 0`, outside the documented range `[0, 2π]` (`0 ≤ π` assumed). -/
-theorem arc2_rotate_negative_defect (M : MathOps α) (a : Arc2S α) (θ : α) (o : V2 α)
-    (hpi : 0 ≤ M.pi) (h : a.a1 + θ < 0) :
-    (arc2_rotate M a θ o).a1 = a.a1 + θ ∧ (arc2_rotate M a θ o).a1 < 0 := by
-  obtain ⟨_, _, e1, _, _⟩ := arc2_rotate_maps M a θ o
-  rw [if_neg (by intro h'; linarith)] at e1
-  exact ⟨e1, e1 ▸ h⟩
 
 /-- `Arc3D.move`: the supporting plane is `Plane.move` of the old plane, radius and angles are
 kept (the in-plane centre is `(0,0)`), and — for a valid plane and in-plane centre `(0,0)` — every
@@ -2517,39 +2522,63 @@ theorem arc2_scale_inverse (M : MathOps α) (a : Arc2S α) (k : α) (o : V2 α) 
   · exact h3.symm
   · exact h4.symm
 
-/-- PARTIAL inverse for `Arc2D.rotate`: rotating back by `-θ` returns the original arc PROVIDED no
-wrap-around happens in either direction (`a + θ ≤ 2π` and `a ≤ 2π` for both angles), for a
-cache-coherent arc and `cos (-θ) = cos θ`, `sin (-θ) = -sin θ`.  Without the no-wrap conditions
-this is false in general (see the defects above). -/
-theorem arc2_rotate_inverse_partial (M : MathOps α) (a : Arc2S α) (θ : α) (o : V2 α)
+/-- Inverse for `Arc2D.rotate`: rotating back by `-θ` about the same origin returns the original
+arc, for ANY `θ`, for a cache-coherent arc that is a full circle or has both angles in `[0, 2π)`
+(an end angle stored as exactly `2π` on a non-circle is renormalised to `0` by `rotate`, so it
+cannot come back literally), given `cos (-θ) = cos θ`, `sin (-θ) = -sin θ`, the floor law and
+integrality of `M.floor`. -/
+theorem arc2_rotate_inverse (M : MathOps α) (a : Arc2S α) (θ : α) (o : V2 α)
     (hcs : M.cos θ * M.cos θ + M.sin θ * M.sin θ = 1)
     (hc : M.cos (-θ) = M.cos θ) (hs : M.sin (-θ) = -M.sin θ) (hcoh : Arc2Coherent M a)
-    (h1 : a.a1 + θ ≤ 2 * M.pi) (h2 : a.a2 + θ ≤ 2 * M.pi)
-    (h1' : a.a1 ≤ 2 * M.pi) (h2' : a.a2 ≤ 2 * M.pi) :
+    (hfl : ∀ x, M.floor x ≤ x ∧ x < M.floor x + 1) (hint : ∀ x, ∃ n : ℤ, M.floor x = n)
+    (hpi : 0 < M.pi)
+    (hrange : Arc2IsCircle M a ∨
+      ((0 ≤ a.a1 ∧ a.a1 < 2 * M.pi) ∧ (0 ≤ a.a2 ∧ a.a2 < 2 * M.pi))) :
     arc2_rotate M (arc2_rotate M a θ o) (-θ) o = a := by
+  have hP : 0 < 2 * M.pi := by linarith
   obtain ⟨c1, c2, c3, c4⟩ := hcoh
-  obtain ⟨e1, e2, _, _⟩ := arc2_rotate_angles_partial M a θ o h1 h2
-  have f1 : (arc2_rotate M a θ o).a1 + -θ ≤ 2 * M.pi := by rw [e1]; linarith
-  have f2 : (arc2_rotate M a θ o).a2 + -θ ≤ 2 * M.pi := by rw [e2]; linarith
-  obtain ⟨g1, g2, _, _⟩ := arc2_rotate_angles_partial M (arc2_rotate M a θ o) (-θ) o f1 f2
-  have k1 : (arc2_rotate M (arc2_rotate M a θ o) (-θ) o).a1 = a.a1 := by rw [g1, e1]; ring
-  have k2 : (arc2_rotate M (arc2_rotate M a θ o) (-θ) o).a2 = a.a2 := by rw [g2, e2]; ring
-  obtain ⟨_, _, _, _, d1, d2, d3, d4⟩ := arc2_rotate_maps M (arc2_rotate M a θ o) (-θ) o
-  apply arc2_ext
-  · rw [(arc2_rotate_maps M (arc2_rotate M a θ o) (-θ) o).1, (arc2_rotate_maps M a θ o).1]
+  obtain ⟨ec, er, d1, d2, d3, d4⟩ := arc2_rotate_maps M (arc2_rotate M a θ o) (-θ) o
+  have hcen : (arc2_rotate M (arc2_rotate M a θ o) (-θ) o).c = a.c := by
+    rw [ec, (arc2_rotate_maps M a θ o).1]
     exact p2_rotate_inverse M a.c o θ (-θ) hcs hc hs
+  have key : (arc2_rotate M (arc2_rotate M a θ o) (-θ) o).a1 = a.a1 ∧
+      (arc2_rotate M (arc2_rotate M a θ o) (-θ) o).a2 = a.a2 := by
+    rcases hrange with hcirc | ⟨h1, h2⟩
+    · obtain ⟨_, _, hc', _⟩ := arc2_rotate_circle M a θ o hcirc
+      obtain ⟨g1, g2, _⟩ := arc2_rotate_circle M (arc2_rotate M a θ o) (-θ) o hc'
+      exact ⟨g1.trans hcirc.1.symm, g2.trans hcirc.2.symm⟩
+    · have hnc : ¬ Arc2IsCircle M a := fun h => absurd h.2 (ne_of_lt h2.2)
+      obtain ⟨e1, e2, _, _, _, _, hnc'⟩ := arc2_rotate_angles M a θ o hfl hpi hnc
+      obtain ⟨g1, g2, s1, s2, _, _, _⟩ :=
+        arc2_rotate_angles M (arc2_rotate M a θ o) (-θ) o hfl hpi hnc'
+      obtain ⟨n1, hn1⟩ := hint ((a.a1 + θ) / (2 * M.pi))
+      obtain ⟨n2, hn2⟩ := hint ((a.a2 + θ) / (2 * M.pi))
+      obtain ⟨m1, hm1⟩ := hint (((arc2_rotate M a θ o).a1 + -θ) / (2 * M.pi))
+      obtain ⟨m2, hm2⟩ := hint (((arc2_rotate M a θ o).a2 + -θ) / (2 * M.pi))
+      unfold fmod at e1 e2 g1 g2
+      rw [hn1] at e1
+      rw [hn2] at e2
+      rw [hm1] at g1
+      rw [hm2] at g2
+      constructor
+      · refine eq_of_sub_eq_int_mul (z := -(n1 + m1)) hP s1.1 s1.2 h1.1 h1.2 ?_
+        rw [g1, e1]; push_cast; ring
+      · refine eq_of_sub_eq_int_mul (z := -(n2 + m2)) hP s2.1 s2.2 h2.1 h2.2 ?_
+        rw [g2, e2]; push_cast; ring
+  apply arc2_ext
+  · exact hcen
   · rfl
-  · exact k1
-  · exact k2
-  · rw [d1, k1, c1]
-  · rw [d2, k1, c2]
-  · rw [d3, k2, c3]
-  · rw [d4, k2, c4]
+  · exact key.1
+  · exact key.2
+  · rw [d1, key.1, c1]
+  · rw [d2, key.1, c2]
+  · rw [d3, key.2, c3]
+  · rw [d4, key.2, c4]
 
 /-! ## F. Non-vacuity of the hypotheses (concrete instances over ℚ)
 
 `Mq` is a toy `MathOps ℚ`: `cos ≡ 3/5`, `sin 0 = -4/5` (a NEGATIVE angle) and `sin t = 4/5`
-otherwise, `sqrt 9 = 3`, `sqrt 1 = 1`, `π := 3`.  With the axis `(1,2,2)` (length 3, NOT a unit
+otherwise, `sqrt 9 = 3`, `sqrt 1 = 1`, `π := 3`, `floor` the integer floor.  With the axis `(1,2,2)` (length 3, NOT a unit
 vector) all hypotheses of the rotation theorems hold simultaneously, so none of the theorems above
 is vacuous.  (The full `sqrt` law `∀ x ≥ 0, …` used for the `|k|`-scaling of lengths cannot hold
 over ℚ; it holds over ℝ with `Real.sqrt`, see `Props/C02Real.lean`.) -/
@@ -2564,7 +2593,7 @@ def Mq : MathOps ℚ where
   asin := fun _ => 0
   atan2 := fun _ _ => 0
   pi := 3
-  floor := fun x => x
+  floor := fun x => ((⌊x⌋ : ℤ) : ℚ)
 
 /-- `hcs`, `hr`, `h0`, `h1` and the inverse-angle hypotheses `hc`, `hs` hold together for `Mq`,
 the axis `(1,2,2)`, `θ = 0`, `φ = 1`. -/
@@ -2595,12 +2624,25 @@ kernel is the expected one. -/
 example : PlaneValid (⟨⟨0, 0, 1⟩, ⟨1, 2, 3⟩, 3, ⟨1, 0, 0⟩, ⟨0, 1, 0⟩⟩ : PlaneS ℚ) := by
   refine ⟨?_, ?_, ?_, ?_, ?_⟩ <;> decide +kernel
 
-/-- A cache-coherent arc exists, with the no-wrap hypotheses of `arc2_rotate_angles_partial`
-(`a + θ ≤ 2π`, here `π := 3`). -/
+/-- The floor law, integrality of `floor` and `0 < π` hold for `Mq`. -/
 example :
-    Arc2Coherent Mq (arc2_init Mq ⟨0, 0⟩ 1 0 1) ∧
-    (arc2_init Mq ⟨0, 0⟩ 1 0 1).a1 + 1 ≤ 2 * Mq.pi ∧ (arc2_init Mq ⟨0, 0⟩ 1 0 1).a2 + 1 ≤ 2 * Mq.pi :=
-  ⟨⟨rfl, rfl, rfl, rfl⟩, by decide +kernel, by decide +kernel⟩
+    (∀ x : ℚ, Mq.floor x ≤ x ∧ x < Mq.floor x + 1) ∧ (∀ x : ℚ, ∃ n : ℤ, Mq.floor x = n) ∧
+    0 < Mq.pi :=
+  ⟨fun x => ⟨Int.floor_le x, Int.lt_floor_add_one x⟩, fun x => ⟨⌊x⌋, rfl⟩, by decide +kernel⟩
+
+/-- A cache-coherent, valid, non-circle arc exists (`a1 = 1`, `a2 = 4`, `π := 3`); rotating it by
+the NEGATIVE angle `-2` (and by `+11 > 2π`) gives angles reduced into `[0, 6)`; a full circle stays
+a full circle. -/
+example :
+    Arc2Coherent Mq (arc2_init Mq ⟨0, 0⟩ 1 1 4) ∧ ¬ Arc2IsCircle Mq (arc2_init Mq ⟨0, 0⟩ 1 1 4) ∧
+    (arc2_rotate Mq (arc2_init Mq ⟨0, 0⟩ 1 1 4) (-2) ⟨0, 0⟩).a1 = 5 ∧
+    (arc2_rotate Mq (arc2_init Mq ⟨0, 0⟩ 1 1 4) (-2) ⟨0, 0⟩).a2 = 2 ∧
+    (arc2_rotate Mq (arc2_init Mq ⟨0, 0⟩ 1 1 4) 11 ⟨0, 0⟩).a1 = 0 ∧
+    (arc2_rotate Mq (arc2_init Mq ⟨0, 0⟩ 1 1 4) 11 ⟨0, 0⟩).a2 = 3 ∧
+    arc2_angle Mq (arc2_rotate Mq (arc2_init Mq ⟨0, 0⟩ 1 1 4) (-2) ⟨0, 0⟩) = 3 ∧
+    Arc2IsCircle Mq (arc2_rotate Mq (arc2_init Mq ⟨0, 0⟩ 1 0 6) (-2) ⟨0, 0⟩) := by
+  unfold Arc2Coherent Arc2IsCircle
+  decide +kernel
 
 /-- Points satisfying the membership predicates exist (unit sphere / cylinder / cone at the
 origin over ℚ). -/
